@@ -13,7 +13,7 @@ from rsx import LostAnchor, SourceFile, code_tokens, match_close, strip_comments
 
 VERIF = os.path.dirname(os.path.dirname(os.path.abspath(__file__)))
 REPO = os.environ.get("VERIF_REPO", "/repo")
-EDIT_CLASSES = {"X", "T", "A", "S", "F", "P", "D", "L"}
+EDIT_CLASSES = {"X", "T", "A", "S", "F", "P", "D", "L", "V", "I"}
 
 
 class Emitter:
@@ -75,6 +75,8 @@ def apply_edits(text, edits, where, prov):
             rx = re.compile(e["find_re"])
             got = len(rx.findall(text))
             count = e.get("count", 1)
+            if count == -1 and got >= 1:
+                count = got        # "every occurrence, at least one" (recorded with the number found)
             if got != count:
                 raise LostAnchor("%s: declared %s-site /%s/ found %d times, expected %d" % (where, cls, e["find_re"][:60], got, count))
             sites = [m.group(0) for m in rx.finditer(text)]
@@ -555,6 +557,60 @@ def desugar_iter_mut_filter_map_for_each(body, where, prov):
     return body[:stmt_start] + new + body[toks[fe_close + 1][3]:]
 
 
+def desugar_for_each(body, count, where, prov):
+    """class D: `RECV.iter().for_each(|X| BODY)` becomes `for X in RECV.iter() { BODY }` (definition of Iterator::for_each).
+    Applied to every occurrence, innermost last; the closure must be a literal with a single identifier parameter and no
+    `return` / `?` / `break` / `continue` of its own."""
+    done = 0
+    while True:
+        toks = code_tokens(body)
+        ks = [i for i, t in enumerate(toks) if t[1] == "for_each" and toks[i - 1][1] == "." and toks[i + 1][1] == "(" and toks[i + 2][1] == "|" and toks[i + 4][1] == "|" and toks[i + 3][0] == "id"]
+        if not ks:
+            break
+        k = ks[0]
+        x = toks[k + 3][1]
+        close = match_close(toks, k + 1)
+        cb0 = k + 5
+        cbody = body[toks[cb0][2]:toks[close - 1][3]]
+        for t in toks[cb0:close]:
+            if t[0] == "id" and t[1] in ("return", "break", "continue") or t[1] == "?":
+                raise LostAnchor("%s: for_each closure contains %s" % (where, t[1]))
+        # receiver: postfix chain backwards from the '.' before for_each
+        j = k - 2
+        while j >= 0:
+            t = toks[j]
+            if t[0] == "punct" and t[1] == ")":
+                # matching open paren backwards
+                depth, m = 0, j
+                while m >= 0:
+                    if toks[m][0] == "punct" and toks[m][1] in ")]}":
+                        depth += 1
+                    elif toks[m][0] == "punct" and toks[m][1] in "([{":
+                        depth -= 1
+                        if depth == 0:
+                            break
+                    m -= 1
+                j = m - 1
+                continue
+            if t[0] == "id" or (t[0] == "punct" and t[1] == "."):
+                j -= 1
+                continue
+            break
+        recv = body[toks[j + 1][2]:toks[k - 2][3]]
+        end = toks[close][3]
+        tail = body[end:end + 1]
+        blk = cbody if cbody.lstrip().startswith("{") and match_close(toks, cb0) == close - 1 else "{ " + cbody + " }"
+        new = "for %s in %s %s" % (x, recv, blk)
+        if tail == ";":
+            end += 1
+        prov.append({"cls": "D", "what": "Iterator::for_each desugared to a for loop", "iter": re.sub(r"\s+", "", recv), "elem": x})
+        body = body[:toks[j + 1][2]] + new + body[end:]
+        done += 1
+    if done != count:
+        raise LostAnchor("%s: %d for_each sites desugared, unit declares %d" % (where, done, count))
+    return body
+
+
 def lift_fold(sig, body, fl, where, prov):
     """class D (lifted form, used when the fold closure has early returns):
        `let N: T = ITER.fold(INIT, |mut ACC, X| BODY);` becomes
@@ -879,10 +935,12 @@ class Unit:
             sig = strip_comments(it.sig)
             body = strip_comments(it.body)
             if spec.get("contract_only"):
-                spec = {k: v for k, v in spec.items() if k not in ("lift", "fold_lift", "desugar_folds", "desugar_map_collect_sets", "desugar_iter_mut_chain", "closure", "autofmt", "top", "loop")}
+                spec = {k: v for k, v in spec.items() if k not in ("lift", "fold_lift", "desugar_folds", "desugar_map_collect_sets", "desugar_iter_mut_chain", "desugar_for_each", "closure", "autofmt", "top", "loop")}
                 spec["edit"] = [e for e in spec.get("edit", []) if e.get("in") == "sig"]
             sig = apply_edits(sig, [e for e in spec.get("edit", []) if e.get("in") == "sig"], where, prov)
             body = apply_edits(body, [e for e in spec.get("edit", []) if e.get("in", "body") == "body"], where, prov)
+            if spec.get("desugar_for_each"):
+                body = desugar_for_each(body, spec["desugar_for_each"], where, prov)
             if spec.get("desugar_iter_mut_chain"):
                 body = desugar_iter_mut_filter_map_for_each(body, where, prov)
             if spec.get("desugar_map_collect_sets"):
